@@ -14,6 +14,7 @@ Definition a_mean (c : string) : string := ("_mean__" ++ c)%string.
 Definition a_var (c : string) : string := ("_var__" ++ c)%string.
 Definition a_cov (p : string * string) : string := ("_cov__" ++ fst p ++ "__" ++ snd p)%string.
 Definition a_demean (c : string) : string := ("_demean__" ++ c)%string.
+Definition a_gmean (c : string) : string := ("_group_mean__" ++ c)%string.
 
 Record request := mk_request {
   r_has_count : bool; r_mean : list string; r_var : list string; r_cov : list (string * string);
@@ -25,8 +26,13 @@ Definition demeaned (c : string) : expr := Col (a_demean c).
 Definition nw_plan (q : request) (g : option string) : plan :=
   let has_covar := negb (Nat.eqb (length (r_covar q)) 0) in
   (if has_covar then
-     [ WithColumns (map (fun c => (a_demean c, Sub (Col c) (MeanOver (Col c) g))) (r_covar q));
-       WithColumns (map (fun c => (a_var c, Mul (demeaned c) (demeaned c))) (r_var q)
+     (* grouped: the group means are joined back as columns first (recorded as a window step, tools/plans.py Frame.join) *)
+     (match g with
+      | Some _ => [ WithColumns (map (fun c => (a_gmean c, MeanOver (Col c) g)) (r_covar q));
+                    WithColumns (map (fun c => (a_demean c, Sub (Col c) (Col (a_gmean c)))) (r_covar q)) ]
+      | None => [ WithColumns (map (fun c => (a_demean c, Sub (Col c) (MeanOver (Col c) g))) (r_covar q)) ]
+      end) ++
+     [ WithColumns (map (fun c => (a_var c, Mul (demeaned c) (demeaned c))) (r_var q)
                     ++ map (fun p => (a_cov p, Mul (demeaned (fst p)) (demeaned (snd p)))) (r_cov q)) ]
    else [])
   ++ [ Aggregate g
